@@ -59,7 +59,14 @@ func c03Check(env *core.Env, cc core.Case) core.Verdict {
 			if env.HooksOn {
 				extraEnv = append(extraEnv, "CRS_VERIF_TRACE="+logf)
 			}
-			r := sut.Run(sut.Cmd{Bin: env.Bin, Args: []string{"-d", root, "regex", "generate", "-"}, Stdin: []byte(c.Prog.Main), Dir: cwd, Env: extraEnv})
+			// the way the bytes arrive on standard input is not an input: one run gets them in two writes with a
+			// pause, one in many small writes, one from a regular file
+			mode := map[int]string{1: "split", 2: "file", 3: "dribble"}[i]
+			if mode == "dribble" && len(c.Prog.Main) > 4000 {
+				mode = ""
+			}
+			r := sut.Run(sut.Cmd{Bin: env.Bin, Args: []string{"-d", root, "regex", "generate", "-"}, Stdin: []byte(c.Prog.Main), StdinMode: mode, Dir: cwd, Env: extraEnv})
+			v.Counts["stdin_delivery:"+map[string]string{"": "one-write"}[mode]+mode]++
 			if r.Class() == sut.ClassTimeout {
 				return core.Incon("watchdog")
 			}
@@ -183,7 +190,7 @@ func init() {
 	register(&core.Property{
 		ID:    "C03",
 		Level: "exploration",
-		Rule: "every case is executed K times (quick 12, thorough 40) in fresh processes on byte-identical inputs, with varying TZ and working directory: (a) `regex generate -` on programs of an ambiguity lane (lines that more than one directive pattern could claim, 1..4 suffix-replacement pairs with chains and keys that are suffixes of each other, 2..8 definitions nested to depth 4 in shuffled order, flag sets written in any order with repeats) and on programs of the C01 lanes and the include / include-except / definition generators; (b) format --all, update --all, compare --all (text and github) and single-target forms on K copies of a generated CRS tree. " +
+		Rule: "every case is executed K times (quick 12, thorough 40) in fresh processes on byte-identical inputs, with varying TZ, working directory and delivery of standard input (one write, two writes with a pause, 7-byte writes, a regular file; some programs exceed the 64 KiB pipe buffer): (a) `regex generate -` on programs of an ambiguity lane (lines that more than one directive pattern could claim, 1..4 suffix-replacement pairs with chains and keys that are suffixes of each other, 2..8 definitions nested to depth 4 in shuffled order, flag sets written in any order with repeats) and on programs of the C01 lanes and the include / include-except / definition generators; (b) format --all, update --all, compare --all (text and github) and single-target forms on K copies of a generated CRS tree. " +
 			"Oracle: stdout bytes, exit status and (for tree commands) the resulting snapshot are identical in all K executions. The hook log shows which map iteration orders the K runs actually went through; a generate case is non-trivial only if >= 2 distinct internal orders were observed while the outcome stayed the same (with two equally likely outcomes the chance that K runs agree by luck is 2^(1-K)).",
 		Cases: func(env *core.Env, rng *rand.Rand) []core.Case {
 			n := env.N(300, 1500)
@@ -194,6 +201,15 @@ func init() {
 				case 0, 1:
 					cs = append(cs, c03Ambiguous(rng))
 				case 2:
+					if (i/6)%25 == 7 {
+						// a program larger than a pipe buffer (64 KiB): what a single read returns depends on timing
+						var sb strings.Builder
+						for w := 0; sb.Len() < 70000+rng.Intn(60000); w++ {
+							fmt.Fprintf(&sb, "w%05dx%s\n", w*7919%100000, strings.Repeat("y", w%9))
+						}
+						cs = append(cs, &c03Case{Kind: "generate", Prog: &ra.Program{Lane: "big-stdin", Main: sb.String(), Files: ra.Files{Include: map[string]string{}, Exclude: map[string]string{}}}, Lane: "big-stdin"})
+						continue
+					}
 					cs = append(cs, &c03Case{Kind: "generate", Prog: g.Program(ra.Lanes[(i/6)%len(ra.Lanes)]), Lane: "c01-lanes"})
 				case 3:
 					var m *metaCase
